@@ -19,8 +19,8 @@ CONFIGS = [
 class C18(DiffCheck):
     id = "C18"
     profile = "mixed"
-    profiles = ["mixed", "holders", "usage"]
-    rule = ("A history is generated online under the default configuration (profiles mixed/holders/usage, with list commands) "
+    profiles = ["options", "options", "mixed", "holders", "usage"]
+    rule = ("A history is generated online under the default configuration (profiles options/mixed/holders/usage, with list and allocate commands weighted up) "
             "and then executed under 8 configurations {listing allowed, disallowed} x {no usage DB, usage DB} x {no blur, "
             "blur 7, blur 3600}. Oracle (differential): after removing `nameplates` answers, the canonical frame streams of "
             "every connection and the channel snapshot after every op and timer tick are equal in all 8 worlds. Oracle (list): "
